@@ -257,9 +257,10 @@ static void w_audit(void)
         if (mc_branch_dead) return;
         /* at() */
         {
-            size_t idx[5]; int ni = 0;
+            size_t idx[8]; int ni = 0;
             if (n > 0) { idx[ni++] = 0; idx[ni++] = n - 1; }
             idx[ni++] = n; idx[ni++] = n + 1; idx[ni++] = SIZE_MAX;
+            if (sizeof(CH) > 1) { idx[ni++] = SIZE_MAX / sizeof(CH) + 1; idx[ni++] = SIZE_MAX / sizeof(CH) + 2; }      /* byte offset wraps to a small value */
             for (i = 0; i < ni; i++) {
                 static CH * volatile e; e = NULL;
                 SHIM_CALL(ab, e = SF(at)(s, idx[i]));
